@@ -20,7 +20,7 @@ type c17Case struct {
 	Slot  string   `json:"slot"`  // missing | equal | different
 }
 
-var c17Atoms = []string{"ok-any", "ok-type", "ok-custom", "miss-any", "miss-type", "miss-custom", "bad-type", "bad-custom", "bad-type2", "bad-syntax", "bad-type-null"}
+var c17Atoms = []string{"ok-any", "ok-type", "ok-custom", "miss-any", "miss-type", "miss-custom", "bad-type", "bad-custom", "bad-type2", "bad-syntax", "bad-type-null", "bad-custom-chan"}
 
 const (
 	c17JSONDoc  = `{"a":1,"b":"x","c":{"d":true},"e":2,"n":null}`
@@ -116,6 +116,16 @@ func c17Build(api string, atoms []string, eomp bool, dropMissing bool) c17Built 
 			m := match.Custom(p("b"), func(v any) (any, error) { return nil, errors.New("custom says no") }).ErrOnMissingPath(eomp)
 			b.jm, b.ym = append(b.jm, m), append(b.ym, m)
 			b.fails = append(b.fails, `Custom("`+p("b")+`")`)
+		case "bad-custom-chan":
+			// the callback returns a value that cannot be encoded as JSON: the replacement fails, which is a failure of this matcher
+			// (the YAML encoder of the library's dependency renders such values, so the atom is JSON only)
+			if yaml {
+				b.skip = true
+				continue
+			}
+			m := match.Custom(p("e"), func(v any) (any, error) { return map[string]any{"c": make(chan int)}, nil }).ErrOnMissingPath(eomp)
+			b.jm, b.ym = append(b.jm, m), append(b.ym, m)
+			b.fails = append(b.fails, `Custom("`+p("e")+`")`)
 		case "bad-syntax":
 			if !yaml {
 				b.skip = true
